@@ -53,6 +53,11 @@ def check(ctx, case):
 			if j in case.get('lacking', []):
 				g[attr] = None
 			genomes.append(g)
+		if case.get('dup_ncbi') and n >= 2:
+			# ncbi_id is unique only together with ncbi_db: two genomes may legally carry the same number
+			a, b = case['dup_ncbi']
+			genomes[b]['ncbi_id'] = genomes[a]['ncbi_id']
+			genomes[b]['ncbi_db'] = 'nuccore'
 		sigs = case['sigs']
 		# entries of the signature file: ('g', j) = genome j's signature under its ID, ('x', m) = unrelated signature
 		entries = case['file']
@@ -99,16 +104,20 @@ def check(ctx, case):
 			from gambit.query import query, QueryParams
 			from gambit import metric
 			qs = [np.asarray(q, dtype=kspec.index_dtype) for q in case['queries']]
-			res = query(db, qs, QueryParams(report_closest=len(db.genomes), chunksize=case.get('chunk', 1000)))
-			rows = []
-			for item in res.items:
-				dmap = {m.genome.key: bits(m.distance) for m in item.closest_genomes}
-				if len(dmap) != len(db.genomes):
-					pf.append('closest_genomes does not cover every genome once')
-				rows.append([dmap.get(g.key, 0) for g in db.genomes])
 			table = [[bits(metric.jaccarddist(q, np.asarray(a, dtype=kspec.index_dtype))) for a in arrs] for q in qs]
 			g_codes_db_order = [gid_codes[gidx[g.key]] for g in db.genomes]
-			lines.append(f'c04.dists {nats(g_codes_db_order)} {nats(sid_codes)} {natlists(table)} {natlists(rows)}')
+			# the same loaded database object is queried several times (other chunk sizes, queries in another order): every
+			# query must use each genome's own signature, not only the first one
+			for rnd, chunk in enumerate([case.get('chunk', 1000)] + list(case.get('requery', []))):
+				order = list(range(len(qs))) if rnd % 2 == 0 else list(reversed(range(len(qs))))
+				res = query(db, [qs[i] for i in order], QueryParams(report_closest=len(db.genomes), chunksize=chunk))
+				rows = []
+				for item in res.items:
+					dmap = {m.genome.key: bits(m.distance) for m in item.closest_genomes}
+					if len(dmap) != len(db.genomes):
+						pf.append('closest_genomes does not cover every genome once')
+					rows.append([dmap.get(g.key, 0) for g in db.genomes])
+				lines.append(f'c04.dists {nats(g_codes_db_order)} {nats(sid_codes)} {natlists([table[i] for i in order])} {natlists(rows)}')
 			try:
 				db.signatures.close()
 				db.session.close()
@@ -147,8 +156,11 @@ def run(ctx):
 		entries = [('g', j) for j in range(n)] + [('x', m) for m in range(nx)]
 		r = rng.random()
 		case = {'kind': 'load', 'attr': attr, 'n': n, 'sigs': sigs, 'extra': extra, 'via': rng.choice(['dir', 'files']),
-		        'queries': [_mk_sig(rng) for _ in range(rng.randint(1, 3))], 'chunk': rng.choice([1, 2, 3, 1000])}
+		        'queries': [_mk_sig(rng) for _ in range(rng.randint(1, 3))], 'chunk': rng.choice([1, 2, 3, 1000]),
+		        'requery': [rng.choice([1, 2, 3, 5, 1000]) for _ in range(rng.choice([0, 1, 2]))]}
 		tag = 'load-superset'
+		if j % 12 == 7 and n >= 2:
+			r = 0.99
 		if r < 0.6:
 			rng.shuffle(entries)
 		elif r < 0.75:
@@ -165,5 +177,12 @@ def run(ctx):
 		elif r < 0.94 and attr != 'key':
 			case['lacking'] = [rng.randrange(n)]
 			tag = 'load-genome-lacks-id'
+		elif r >= 0.94 and n >= 2:
+			attr = case['attr'] = 'ncbi_id'
+			a, b = rng.sample(range(n), 2)
+			case['dup_ncbi'] = [a, b]
+			victim = ('g', rng.choice([a, b]))
+			entries = [e for e in entries if e != victim]    # the shared number appears once in the file (file IDs stay unique)
+			tag = 'load-shared-ncbi-id'
 		case['file'] = entries
 		sub(case, tag)
